@@ -464,6 +464,37 @@ func TestC11_ErrorClass(t *testing.T) {
 			return
 		}
 	}
+	// the same magnitudes spelled with long mantissas and compensating exponents
+	// (the range is a property of the value, not of the spelling): the JSON
+	// decoder decides whether the text is a number in range
+	zeros := func(k int) string { return strings.Repeat("0", k) }
+	var spell []string
+	for _, k := range []int{20, 305, 308, 309, 330, 400} {
+		for _, e := range []string{"", "e-1", "e-10", "e-100", "e-400", "e1", "e+8", "E-91"} {
+			spell = append(spell, "1"+zeros(k)+e, "-17"+zeros(k)+e, "9"+zeros(k)+".5"+e, "0."+zeros(k)+"1"+strings.Replace(e, "-", "", 1), "0."+zeros(k)+"1"+e)
+		}
+	}
+	for _, num := range spell {
+		for _, wrap := range []string{"%s", "[%s]", `{"k": %s}`} {
+			text := fmt.Sprintf(wrap, num)
+			c := c11Case{Text: text}
+			var probe interface{}
+			if err := json.Unmarshal([]byte(text), &probe); err != nil {
+				c.WantError = true
+			}
+			m := c11Run(c)
+			n++
+			rec.Case(text, true, func() interface{} { return c })
+			if c.WantError {
+				rec.Class("long_spelling_out_of_range")
+			} else {
+				rec.Class("long_spelling_in_range")
+			}
+			if m != "" && rec.FailNow(c, m) >= 8 {
+				return
+			}
+		}
+	}
 	rec.Exhaustive("error_class_texts", n)
 }
 
